@@ -234,6 +234,8 @@ class Exec(object):
         self.cuts = []
         self._pop_target = None
         self._pop_count = 0
+        self._in_cond = False
+        self.origin = {}            # binder name of an input -> how the source writes it
         args = [a.arg for a in fn.args.args]
         self.args = args
         for a in args:
@@ -241,9 +243,16 @@ class Exec(object):
                 continue
             t = cfg.get('params', {}).get(a)
             if t:
-                self.env[a] = X('var', t, v=a)
+                self.env[a] = self.input(a, t, a)
 
     # ---- helpers
+    def input(self, name, t, origin):
+        """An input of the function: binder `name`, written `origin` in the source."""
+        if self.origin.setdefault(name, origin) != origin:
+            raise TieBroken('%s %s: inputs %s and %s would share the binder name %s' % (
+                self.mod.rel, self.fn.name, self.origin[name], origin, name))
+        return X('var', t, v=name)
+
     def bad(self, what, node=None):
         raise TieBroken('%s %s (line %s): %s%s' % (
             self.mod.rel, self.fn.name, getattr(node, 'lineno', '?'), what,
@@ -292,14 +301,16 @@ class Exec(object):
                 a = k[5:]
                 t = self.cfg.get('attrs', {}).get(a)
                 if t:
-                    self.env[k] = X('var', t, v=a)
+                    self.env[k] = self.input(a, t, k)
                     return self.env[k]
                 c = self.mod.class_const(self.cls, a)
                 if c is not None:
+                    self.mod.check_live(self.cls.name, a, c)
                     return X('lit', 'N', v=str(c))
                 self.bad('attribute read before it is assigned (and not a declared input)', node)
             c = self.mod.consts.get(k)
             if c is not None:
+                self.mod.check_live(None, k, c)
                 return X('lit', 'N', v=str(c))
             self.bad('unknown name', node)
         if isinstance(node, ast.Subscript):
@@ -307,9 +318,9 @@ class Exec(object):
                 ix = node.slice
                 if isinstance(ix, ast.Constant) and isinstance(ix.value, int) and not isinstance(ix.value, bool) \
                         and ix.value >= 0:
-                    return X('var', 'N', v='%s%d' % (node.value.id, ix.value))
+                    return self.input('%s%d' % (node.value.id, ix.value), 'N', '%s[%d]' % (node.value.id, ix.value))
                 if isinstance(ix, ast.Name) and ix.id in self.env and self.env[ix.id].k == 'var':
-                    return X('var', 'N', v='%s_at_%s' % (node.value.id, ix.id))
+                    return self.input('%s_at_%s' % (node.value.id, ix.id), 'N', '%s[%s]' % (node.value.id, ix.id))
             self.bad('subscript outside the grammar', node)
         if isinstance(node, ast.UnaryOp) and isinstance(node.op, ast.USub):
             x = self.tr(node.operand)
@@ -323,11 +334,13 @@ class Exec(object):
         if isinstance(node, ast.Call):
             n = self.is_pop(node)
             if n is not None:
+                if self._in_cond:
+                    self.bad('pop inside a conditional', node)
                 self._pop_count += 1
                 base = (self._pop_target or 'anon') + '_raw'
                 name = base if self._pop_count == 1 else '%s%d' % (base, self._pop_count)
                 self.layout.append((self._pop_target or 'anon', n, 'pop'))
-                return X('var', 'N', v=name)
+                return self.input(name, 'N', 'pop(%d)' % n)
             f = node.func
             if isinstance(f, ast.Name) and f.id == 'float' and len(node.args) == 1 and not node.keywords:
                 x = self.tr(node.args[0])
@@ -512,13 +525,13 @@ class Exec(object):
             if not ok:
                 self.bad('int(...) other than `x = int(round(x))` on a computed non-integer x', s)
             self.cuts.append((name, self.env[k].v, s.lineno))
-            self.env[k] = X('var', 'Z', v=name)
+            self.env[k] = self.input(name, 'Z', 'int(round(%s))' % k)
             return
         # a bare pop: the target is an input from here on
         n = self.is_pop(v)
         if n is not None:
             self.layout.append((name, n, 'pop'))
-            self.env[k] = X('var', 'N', v=name)
+            self.env[k] = self.input(name, 'N', '%s = pop(%d)' % (k, n))
             return
         self._pop_target = name
         x = self.tr(v)
@@ -606,7 +619,11 @@ class Exec(object):
                 return
         # conditional assignment chain
         env = dict(self.env)
-        self.merge_if(s, env)
+        self._in_cond = True
+        try:
+            self.merge_if(s, env)
+        finally:
+            self._in_cond = False
         changed = [k for k in env if env[k] is not self.env.get(k)]
         if not changed:
             self.bad('if statement that assigns nothing', s)
@@ -788,6 +805,7 @@ FUNCS_C16 = [
 class Module(object):
     def __init__(self, rel, text=None):
         self.rel = rel
+        self.live = text is None      # the working tree itself (not a substituted text)
         try:
             self.text = repo.read(rel) if text is None else text
             self.tree = ast.parse(self.text)
@@ -803,6 +821,21 @@ class Module(object):
                 self.consts[n.targets[0].id] = n.value.value
         self.true_division = any(isinstance(n, ast.ImportFrom) and n.module == '__future__' and
                                  any(a.name == 'division' for a in n.names) for n in self.tree.body)
+
+    def check_live(self, cname, name, value):
+        """A constant read off the AST must be the value the imported module holds (nothing rebinds it
+        later in the file or from another module at import time)."""
+        if not self.live:
+            return
+        import importlib
+        try:
+            m = importlib.import_module(self.rel[:-3].replace('/', '.'))
+            got = getattr(getattr(m, cname), name) if cname else getattr(m, name)
+        except Exception as e:  # noqa
+            raise TieBroken('%s: cannot read constant %s from the imported module: %s' % (self.rel, name, e))
+        if got is not value and got != value or isinstance(got, bool):
+            raise TieBroken('%s: constant %s%s is %r in the imported module, %r in the source text' % (
+                self.rel, (cname + '.') if cname else '', name, got, value))
 
     def cls(self, name):
         for n in self.tree.body:
@@ -953,6 +986,19 @@ def render_all(which, items):
             L.append('/-- `if <arg> is None: return None` is the first statement -/')
             L.append('def %s_none_guard : Bool := true' % ex.prefix)
             L.append('')
+    L.append('/-- the inputs of every definition above as the source writes them (`x = pop(n)`: the local / attribute that')
+    L.append('received `buffer.pop_unsigned_int(n)`; `pop(n)`: a pop used inside the expression; `self.x`: an attribute')
+    L.append('declared as input; `int(round(x))`: the opaque cut): binder names are invisible to the theorems about the')
+    L.append('definitions, this table is not (`gen_inputs`) -/')
+    L.append('def inputs : List (String × List String) := [')
+    rows = []
+    for cname, fname, ex in items:
+        for d in ex.defs:
+            if d.params:
+                rows.append('  ("%s", [%s])' % (d.name, ', '.join('"%s"' % ex.origin.get(p, p) for p, _ in d.params)))
+    L.append(',\n'.join(rows))
+    L.append(']')
+    L.append('')
     L.append('end PyIpmi.Gen.%s' % ns)
     return '\n'.join(L) + '\n'
 
